@@ -13,7 +13,7 @@ from .values import (
 
 KNOWN_MODULES = {"queue", "np", "numpy", "time", "warnings", "textwrap", "threading", "itertools", "math", "json", "pickle",
                  "pd", "h5py", "sps", "sm", "op", "xgb", "kernels", "multiprocessing", "contextlib", "sqlite3",
-                 "gzip", "io", "gym"}
+                 "gzip", "io", "gym", "Path"}
 BUILTIN_EXC = {"ValueError", "TypeError", "KeyError", "IndexError", "AttributeError", "RuntimeError",
                "NotImplementedError", "AssertionError", "ZeroDivisionError", "Exception", "BaseException",
                "RuntimeWarning", "LinAlgError", "StopIteration"}
@@ -115,6 +115,9 @@ def fresh(t: str, name: str, st: State, eng=None):
     if t == "emptydict":
         from .values import CDict
         return st.alloc(CDict({}), "cdict")
+    if t == "disk":
+        from .lib_fs import Disk
+        return Disk()
     if t == "rng":
         o = st.new_obj("rng")
         st.heap[o.oid]["state"] = z3.Int(nm + "#rngstate")
@@ -232,6 +235,8 @@ def fresh_like(v, name, st: State):
         return v  # object identity is kept; its fields are havocked separately
     if isinstance(v, Poison):
         return v
+    if type(v).__name__ == "Disk":
+        return type(v)()
     raise Unsupported(f"cannot havoc value of kind {type(v).__name__}")
 
 
